@@ -99,6 +99,7 @@ def run(ctx):
     ctx.harness(["c07-run", sf, of, tf], timeout=3000)
     obs = {o["id"]: o for o in read_ndjson(of)}
     ok = 0
+    timeouts = []
     for s in scheds:
         o = obs.get(s["id"])
         if o is None:
@@ -106,7 +107,11 @@ def run(ctx):
         if o["err_class"] == "skipped":      # sweep bit beyond the end of this suite's record
             continue
         if o["err_class"] == "timeout":
-            raise Infra("schedule %d timed out: %s" % (s["id"], json.dumps(s)[:300]))
+            # the driver gave up after 8 s: not a verdict by itself.  It is reported as an infrastructure failure at the
+            # end, unless other schedules of the same run show a violation (a receiver that goes on reading after an
+            # error typically produces both)
+            timeouts.append(s)
+            continue
         probs = []
         if o.get("panic"):
             probs.append("receiver panicked: " + o["panic"])
@@ -127,6 +132,8 @@ def run(ctx):
         else:
             ok += 1
     ctx.log("schedules conforming: %d / %d" % (ok, len(scheds)))
+    if timeouts and not ctx.violations:
+        raise Infra("%d schedule(s) timed out, e.g. %s" % (len(timeouts), json.dumps(timeouts[0])[:300]))
 
     # 4. (V) every record operation of every half connection in all those runs
     events = read_ndjson(tf)
